@@ -21,7 +21,7 @@ func init() {
 	register(&propDef{
 		ID: "C01",
 		Meta: propMeta{
-			Explanation: "Decides structural necessary conditions (nothing is executed): (R01a) requested-digest plumbing: every registered Signer.Sign function (or the helpers of its own package it calls) reads SignOpts.Hash, and no crypto.Hash constant is passed as an argument or stored as the digest in those functions outside a frozen, reasoned table of format-mandated digests; the server parses the digest parameter through x509tools.HashByName, refuses an unknown name, and hands exactly that value to signinit.Init, which stores it in SignOpts.Hash and in the audit record; the remote command sends the digest name it validated; (R01b) refusal before signing: serveSign calls through Signer.Sign only after the signer lookup, the digest lookup and the flag parsing succeeded; signinit.Init refuses a key without the certificate kind the signer needs before it builds SignOpts; both commands refuse a type without a Sign function before opening the output; (R01c) the standalone and the remote sign command perform the same client-side stages in the same order on every success path (type detection, flags, open for patching, optional is-signed probe and rewind, transform, sign or remote call, apply, fix-up), and both apply the result through the same Transformer; (R01d) every signer that builds a PKCS#7 signature returns it through pkcs9 TimestampAndMarshal / the builder's self-verification (shared with C16 R16e).",
+			Explanation: "Decides structural necessary conditions (nothing is executed): (R01a) requested-digest plumbing: every registered Signer.Sign function (or the helpers of its own package it calls) reads SignOpts.Hash, and no crypto.Hash constant is passed as an argument or stored as the digest in those functions outside a frozen, reasoned table of format-mandated digests; the server parses the digest parameter through x509tools.HashByName, refuses an unknown name, and hands exactly that value to signinit.Init, which stores it in SignOpts.Hash and in the audit record; the remote command sends the digest name it validated; (R01b) refusal before signing: serveSign calls through Signer.Sign only after the signer lookup, the digest lookup and the flag parsing succeeded; signinit.Init refuses a key without the certificate kind the signer needs before it builds SignOpts; both commands refuse a type without a Sign function before opening the output; (R01c) the standalone and the remote sign command perform the same client-side stages in the same order on every success path (type detection, flags, open for patching, optional is-signed probe and rewind, transform, sign or remote call, apply, fix-up), and both apply the result through the same Transformer; (R01d) every signer that builds a PKCS#7 signature returns it through pkcs9 TimestampAndMarshal / the builder's self-verification (shared with C16 R16e); (R01e) side data: the extended MSI digest the client stores next to the signature is nil or PrehashMSI(this file, SignOpts.Hash) and nothing else; the text size a PowerShell digest reports (the patch offset) is a sum of lengths of lines read from the input and depends on no other call; no memory handed to a sync.Pool is also returned uncopied (zero instances, positive control testdata/ctl/poolesc).",
 			NotDecided:  "that a produced artifact verifies; correctness of digests and offsets for any input layout; key-type coverage (RSA/ECDSA/PGP) of each signer; equality of server-side and standalone output bytes.",
 			Assumptions: []string{"the signer registry consists of the signers.Signer literals passed to signers.Register"},
 		},
@@ -36,10 +36,12 @@ func runC01(c *Ctx) {
 	c.Rule("R01b", "unsupported type, digest, flags or certificate kind are refused before anything is signed", 7)
 	c.Rule("R01c", "standalone and remote sign commands run the same client-side stages in the same order", 6)
 	c.Rule("R01d", "PKCS#7-producing signers return through the self-verifying marshal", 8)
+	c.Rule("R01e", "data written next to a signature is computed from this input with the requested digest; patch offsets derive from input byte counts; results do not alias pooled memory", 2)
 	c01Digest(c)
 	c01Refusal(c)
 	c01Stages(c)
 	c01SelfVerify(c)
+	c01SideData(c)
 }
 
 func c01Digest(c *Ctx) {
@@ -468,4 +470,113 @@ func c01SelfVerify(c *Ctx) {
 	if n < 8 {
 		c.Undecided("R01d", "PKCS#7-producing signers", "-", fmt.Sprintf("only %d found (10 confirmed by reading)", n))
 	}
+}
+
+// ------------------------------------------------------------------------------ R01e
+
+func c01SideData(c *Ctx) {
+	p := c.P
+	// MSI: msiTransformer.exsig
+	if tf := p.Func("signers/msi.transform"); tf == nil {
+		c.Undecided("R01e", "msi.transform", "-", "function not found")
+	} else {
+		c.Analysed(p.FName(tf))
+		var stored ssa.Value
+		for _, b := range tf.Blocks {
+			for _, in := range b.Instrs {
+				if st, ok := in.(*ssa.Store); ok {
+					if tn, f, _ := p.fieldAddr(st.Addr); tn == "signers/msi.msiTransformer" && f == "exsig" {
+						stored = st.Val
+					}
+				}
+			}
+		}
+		ok := stored != nil
+		why := ""
+		if ok {
+			for _, lf := range phiLeaves(stored, nil, map[*ssa.Phi]bool{}) {
+				if isNilConst(lf.V) {
+					continue
+				}
+				call, idx := resultOf(lf.V)
+				if call == nil || idx != 0 || p.calleeName(call.Common()) != "lib/authenticode.PrehashMSI" {
+					ok = false
+					why = "a value that is not the result of PrehashMSI: " + short(lf.V.String(), 60)
+					continue
+				}
+				tn, f, _ := p.fieldLoad(stripConvAll(call.Common().Args[1]))
+				if tn != "signers.SignOpts" || f != "Hash" {
+					ok = false
+					why = "PrehashMSI is not given SignOpts.Hash"
+				}
+			}
+		}
+		c.Check(ok, "R01e", "the extended MSI digest is PrehashMSI(input, requested digest) or absent", p.Pos(tf.Pos()), "", "the MsiDigitalSignatureEx blob the client writes next to the signature can be "+why+": the server digests the upload with the requested algorithm, so the two disagree and the signed file fails verification (\"MSI extended digest mismatch\")")
+	}
+	// PowerShell: TextSize provenance
+	if dp := p.Func("lib/authenticode.DigestPowershell"); dp == nil {
+		c.Undecided("R01e", "DigestPowershell", "-", "function not found")
+	} else {
+		c.Analysed(p.FName(dp))
+		var ts ssa.Value
+		for _, b := range dp.Blocks {
+			for _, in := range b.Instrs {
+				if st, ok := in.(*ssa.Store); ok {
+					if tn, f, _ := p.fieldAddr(st.Addr); tn == "lib/authenticode.PsDigest" && f == "TextSize" {
+						ts = st.Val
+					}
+				}
+			}
+		}
+		ok := ts != nil
+		foreign := ""
+		fromInput := false
+		if ok {
+			// walk the arithmetic: phis, additions, conversions, slicing and len(); any other
+			// call is a leaf, and the only leaf allowed is a line read from the input
+			seen := map[ssa.Value]bool{}
+			var walk func(v ssa.Value)
+			walk = func(v ssa.Value) {
+				if v == nil || seen[v] {
+					return
+				}
+				seen[v] = true
+				switch x := v.(type) {
+				case *ssa.Phi:
+					for _, e := range x.Edges {
+						walk(e)
+					}
+				case *ssa.BinOp:
+					walk(x.X)
+					walk(x.Y)
+				case *ssa.Convert:
+					walk(x.X)
+				case *ssa.ChangeType:
+					walk(x.X)
+				case *ssa.Slice:
+					walk(x.X)
+					walk(x.Low)
+					walk(x.High)
+				case *ssa.Extract:
+					walk(x.Tuple)
+				case *ssa.Call:
+					if bi, isB := x.Call.Value.(*ssa.Builtin); isB && bi.Name() == "len" {
+						walk(x.Call.Args[0])
+						return
+					}
+					if n := p.calleeName(x.Common()); n == "lib/authenticode.readLine" {
+						fromInput = true
+					} else {
+						foreign = n
+					}
+				}
+			}
+			walk(ts)
+		}
+		c.Check(ok && fromInput && foreign == "", "R01e", "PowerShell text size is a sum of input line lengths", p.Pos(dp.Pos()), "", "PsDigest.TextSize (the offset at which the signature block is spliced in) depends on the result of "+foreign+" rather than only on the lengths of the lines read from the input: for inputs where the two differ the block lands inside the script text")
+	}
+	for _, f := range poolEscapes(p) {
+		c.Check(f.OK, "R01e", f.Key, f.Pos, "", f.Detail)
+	}
+	c.runControl("R01e pooled memory also returned", "hasher).release", poolEscapes)
 }
